@@ -21,8 +21,10 @@ RULE = ("rule sets (1-3 rules per command; scopes global / ip / specific IPv4 ad
 COMPONENTS = {"real": ["nostr_relay.rate_limiter.RateLimiter"], "stub": ["monotonic clock (virtual)"]}
 ASSUMPTIONS = [
     "window = half-open interval [t, t+I): n+1 admitted messages must span at least I",
-    "a refusal is justified when some applicable rule has seen >= n arrivals of that type in its "
-    "scope within the trailing interval (weak reading of 'has already passed n')",
+    "a refusal is justified when some applicable rule has itself passed >= n messages of that type in its "
+    "scope within the trailing interval; which rule refused a message is not observable, so a refused message "
+    "counts as passed by a rule whenever a rule of another scope also applied to it (upper bound, never "
+    "stricter than the statement)",
     "n = 0 is not generated (documentation defines positive frequencies and -1)",
     "state bound: stored scalars of the limiter <= 2 * sum over (address, command) pairs of the peak "
     "number of arrivals inside one longest-interval window + 2 per pair + 16 (independent of run length)",
@@ -210,6 +212,7 @@ def _run_one(case, sim, RateLimiter, quiet=False):
     viol = []
     arrivals = collections.defaultdict(list)   # (addr, cmd) -> times of all arrivals
     admitted = collections.defaultdict(list)   # (addr, cmd) -> times admitted
+    refused_log = collections.defaultdict(list)  # (addr, cmd) -> (time, scopes of the applicable rules)
     decisions = []
     refused = admitted_after_refusal = 0
     seen_refusal = False
@@ -252,13 +255,20 @@ def _run_one(case, sim, RateLimiter, quiet=False):
             for scope, member, interval, n in app:
                 if n < 0:
                     continue
+                # messages this rule has passed: the admitted ones, and those a rule of ANOTHER scope may have
+                # refused after this one let them through (which rule refused is not observable); a message
+                # that only this scope's rules judged and refused was not passed by them
                 cnt = 0
-                for (a, c), ts in arrivals.items():
+                for (a, c), ts in admitted.items():
                     if c == cmd and member(a):
                         cnt += sum(1 for t in ts if now - t < interval)
+                for (a, c), lst in refused_log.items():
+                    if c == cmd and member(a):
+                        cnt += sum(1 for t, scopes in lst if now - t < interval and scopes - {scope})
                 if cnt >= n:
                     justified = True
                     break
+            refused_log[(addr, cmd)].append((now, {sc for sc, *_ in app}))
             if not justified:
                 viol.append({
                     "cls": "overblock",
